@@ -328,6 +328,15 @@ class _Canon(ast.NodeTransformer):
             t, sw = self._positive(n.test)
             if sw:
                 n.test, n.body, n.orelse = t, n.orelse, n.body
+        # C24: `if T is not V: T = V` (a store skipped when the location already holds that very object) is `T = V`
+        if not self.pattern and not n.orelse and len(n.body) == 1 and isinstance(n.body[0], ast.Assign) and len(n.body[0].targets) == 1 \
+                and isinstance(n.test, ast.Compare) and len(n.test.ops) == 1 and isinstance(n.test.ops[0], ast.IsNot):
+            tgt, val = ast.unparse(n.body[0].targets[0]), ast.unparse(n.body[0].value)
+            sides = {ast.unparse(n.test.left), ast.unparse(n.test.comparators[0])}
+            chain = lambda e: isinstance(e, ast.Name) or (isinstance(e, (ast.Attribute, ast.Subscript)) and chain(e.value) and (
+                not isinstance(e, ast.Subscript) or isinstance(e.slice, (ast.Name, ast.Constant))))
+            if sides == {tgt, val} and tgt != val and chain(n.body[0].targets[0]) and chain(n.body[0].value):
+                return ast.copy_location(n.body[0], n)
         # C10: `if c: x = A else: x = B` is `x = A if c else B`
         if len(n.body) == 1 and len(n.orelse) == 1 and isinstance(n.body[0], ast.Assign) and isinstance(n.orelse[0], ast.Assign) \
                 and len(n.body[0].targets) == 1 and len(n.orelse[0].targets) == 1 \
